@@ -155,7 +155,7 @@ PROPS["C02"] = {
         "quick": {"groups": [{"filters": ["c02_q_"], "timeout": 1500, "jobs": 16}],
                   "bounds": "N <= 36 bytes; strings/arrays <= 2; depth d in {1,2}; Variant masks 0x01 0x06 0x0B 0x0C 0x17 0x18 0x1A 0xC6; unwind 4-20"},
         "thorough": {"groups": [{"filters": ["c02_q_", "c02_t_"], "timeout": 2400, "jobs": 12}],
-                     "bounds": "adds NodeId, LocalizedText, AsymmetricSecurityHeader; Variant masks 0x0E 0x0F 0x11 0x13 0x14 0x15 0x16 0x19 0x98 0xA8; more truncation instances"},
+                     "bounds": "adds NodeId, LocalizedText, AsymmetricSecurityHeader; Variant masks 0x0E 0x0F 0x11 0x13 0x14 0x15 0x19; more truncation instances"},
     },
 }
 
